@@ -590,3 +590,134 @@ def check_no_global_state(rep, model: Model, rule: str) -> None:
         else:
             rep.ok(rule, mod.rel, mod.rel, "no module-level mutable state, no global/nonlocal, no mutable defaults",
                    nontrivial=False)
+
+
+# ------------------------------------------------------------------ field agreement (C12 / C13)
+def identity_fields(model: Model, ci: ClassInfo) -> set:
+    """fields filled from constructor arguments that identify the object: children and parameters
+    (not the derived variable set, not memo / precomputed fields)"""
+    f = class_fields(model, ci)
+    base = set(class_fields(model, model.cls("Expression")).params) if "Expression" in model.classes else set()
+    out = set(f.child_single) | set(f.child_list)
+    for p in f.params:
+        if p not in base:
+            out.add(p)
+    return out
+
+
+def check_field_agreement(rep, model: Model, rule: str, methods, what: str, must_cover: bool) -> None:
+    """For every class defining/inheriting the given dunder methods: the fields they read are
+    compared with the identity fields and with the memo fields."""
+    from .effects import _self_reads, VALUE_CLASSES
+    for ci in sorted(model.classes.values(), key=lambda c: c.name):
+        if not (model.is_subclass(ci, "Expression") or ci.name in VALUE_CLASSES):
+            continue
+        if model.is_subclass(ci, "Expression") and not model.is_concrete(ci):
+            continue
+        f = class_fields(model, ci)
+        init_fields = set(f.all_init)
+        ident = identity_fields(model, ci)
+        # derivative objects: identity = what __eq__ reads among constructor-filled fields
+        for mname in methods:
+            m = model.resolve_method(ci, mname)
+            if m is None:
+                continue
+            reads = _self_reads(model, ci, m) & init_fields
+            memo = reads & set(f.memo)
+            construct = f"{ci.name}.{mname}"
+            if memo:
+                rep.violation(rule, construct, m.where,
+                              f"{what} of {ci.name} reads the memo field(s) {sorted(memo)}: the result would change when the "
+                              f"object is evaluated or simplified", witness_class=f"memo {sorted(memo)[0]}")
+                continue
+            if must_cover and model.is_subclass(ci, "Expression"):
+                missing = ident - reads
+                if missing:
+                    rep.violation(rule, construct, m.where,
+                                  f"{what} of {ci.name} ignores the identity field(s) {sorted(missing)} "
+                                  f"(constructor arguments that distinguish objects)", witness_class=f"missing {sorted(missing)[0]}")
+                    continue
+            rep.ok(rule, construct, m.where, f"reads {sorted(reads)}")
+
+
+def check_hash_subset_of_eq(rep, model: Model, rule: str) -> None:
+    from .effects import _self_reads, VALUE_CLASSES
+    for ci in sorted(model.classes.values(), key=lambda c: c.name):
+        if not (model.is_subclass(ci, "Expression") or ci.name in VALUE_CLASSES):
+            continue
+        e = model.resolve_method(ci, "__eq__")
+        h = model.resolve_method(ci, "__hash__")
+        if e is None:
+            continue
+        if h is None:
+            rep.violation(rule, f"{ci.name}.__hash__", ci.where, f"{ci.name} defines __eq__ but no __hash__ (unhashable)",
+                          witness_class="no-hash")
+            continue
+        init_fields = set(class_fields(model, ci).all_init)
+        er = _self_reads(model, ci, e) & init_fields
+        hr = _self_reads(model, ci, h) & init_fields
+        extra = hr - er
+        if extra:
+            rep.violation(rule, f"{ci.name}.__hash__", h.where,
+                          f"the hash of {ci.name} depends on {sorted(extra)}, which equality ignores: equal objects can hash "
+                          f"differently", witness_class=f"hash-extra {sorted(extra)[0]}")
+        else:
+            rep.ok(rule, f"{ci.name}.__hash__", h.where, f"hash reads {sorted(hr)} within what == compares {sorted(er)}")
+
+
+REFLECTED = ["__radd__", "__rsub__", "__rmul__", "__rtruediv__", "__rpow__", "__rfloordiv__", "__rmod__",
+             "__iadd__", "__isub__", "__imul__", "__itruediv__", "__ipow__", "__pos__", "__abs__", "__float__",
+             "__int__", "__bool__", "__index__", "__coerce__"]
+
+
+def check_no_coercing_dunders(rep, model: Model, rule: str) -> None:
+    bad = []
+    for ci in model.subclasses("Expression"):
+        for nm in REFLECTED:
+            if nm in ci.methods:
+                bad.append((ci, nm))
+    for ci, nm in bad:
+        rep.violation(rule, f"{ci.name}.{nm}", ci.methods[nm].where,
+                      f"{ci.name} defines {nm}: numbers/foreign operands would be coerced instead of rejected",
+                      witness_class=nm)
+    if not bad:
+        rep.ok(rule, "Expression hierarchy", "", "no reflected, in-place or numeric-conversion dunders are defined",
+               nontrivial=False)
+
+
+def check_coordinate_missing_source(rep, model: Model, rule: str) -> None:
+    """CoordinateMissing is raised in exactly one function, which is called only with the name of
+    the variable being evaluated."""
+    raisers = []
+    for fi in model.all_functions():
+        for node in ast.walk(fi.node):
+            if isinstance(node, ast.Raise) and node.exc is not None:
+                e = node.exc.func if isinstance(node.exc, ast.Call) else node.exc
+                r = model.resolve(fi.module, e)
+                if r and r[0] == "class" and r[1].name == "CoordinateMissing":
+                    raisers.append((fi, node.lineno))
+    if not raisers:
+        rep.unknown(rule, "CoordinateMissing", "", "no raise of CoordinateMissing found (anchor moved)")
+        return
+    names = {fi.qualname for fi, _ in raisers}
+    for fi, ln in raisers:
+        rep.ok(rule, f"{fi.qualname}: raise CoordinateMissing", f"{fi.module.rel}:{ln}", "source of the error", nontrivial=False)
+    # callers of the raising function(s)
+    for q in sorted(names):
+        target = model.functions[q]
+        for fi in model.all_functions():
+            for node in ast.walk(fi.node):
+                if isinstance(node, ast.Call) and isinstance(node.func, ast.Attribute) and node.func.attr == target.name \
+                        and fi.qualname != q:
+                    args = [ast.unparse(a) for a in node.args]
+                    sn = self_name(fi)
+                    ok = fi.cls is not None and fi.cls.name == "Variable" and len(args) == 1 and args[0].startswith(f"{sn}.")
+                    construct = f"{fi.qualname}: {ast.unparse(node)[:60]}"
+                    if ok:
+                        rep.ok(rule, construct, f"{fi.module.rel}:{node.lineno}",
+                               "the only lookup is of the evaluated variable's own name")
+                    else:
+                        rep.violation(rule, construct, f"{fi.module.rel}:{node.lineno}",
+                                      f"{target.qualname} (which raises CoordinateMissing) is also called from {fi.qualname} with "
+                                      f"{args}: a coordinate other than that of an occurring variable may be demanded",
+                                      witness_class=f"extra-lookup {fi.qualname}")
